@@ -563,6 +563,11 @@ func Invoke(e *Entry, env *Env, r *world.SimReader) (res *Result) {
 		NestedAlloc, NestedMax = 0, 0
 		measuring = false
 	}
+	if e.NeedSeek && env != nil && env.Prepos > 0 {
+		// the entry points that take an io.ReadSeeker are handed the device itself, positioned by
+		// the caller (the others position it behind their reader kind, see prepos)
+		prepos(env, r, r)
+	}
 	defer func() {
 		if p := recover(); p != nil {
 			if hp, ok := p.(hashPanic); ok {
